@@ -2,6 +2,7 @@ import CogentModel.Json
 import CogentModel.Model.View
 import CogentModel.Model.RichDict
 import CogentModel.Spec.PySlice
+import CogentModel.Model.TreeRich
 open CogentModel CogentModel.View CogentModel.RichDict
 
 def errStr10 : Err → String
@@ -50,8 +51,26 @@ def spanStateJ : SpanState → J
 def fstateJ (s : FeatureState) : J :=
   J.obj [("spans", J.arr (s.spans.map spanStateJ)), ("parent_length", J.num s.parentLength), ("length", J.num s.length)]
 
+def parseNodeRec (j : J) : Except String (TreeRich.NodeRec String) := do
+  let len ← match ← j.get "length" with
+    | .null => pure none
+    | l => do pure (some (← l.toStr))
+  pure { name := ← (← j.get "name").toStr, length := len,
+         params := ← (← j.get "params").toListOf (J.toPairOf J.toStr J.toStr),
+         arity := ← (← j.get "arity").toNat }
+
+def nodeRecJ (n : TreeRich.NodeRec String) : J :=
+  J.obj [("name", J.str n.name), ("length", match n.length with | some l => J.str l | none => J.null),
+         ("params", J.arr (n.params.map fun (k, v) => J.arr [J.str k, J.str v])), ("arity", J.num n.arity)]
+
 def handle (cmd : String) (j : J) : Except String J :=
   match cmd with
+  | "tree_rich" => do
+    -- postorder node records of a tree -> records of deserialise_tree(to_rich_dict()) + the exported dict keys
+    let t ← (← j.get "nodes").toListOf parseNodeRec
+    let r := TreeRich.toRich t
+    pure (J.obj [("newick_names", J.arr (r.names.map J.str)), ("attr_keys", J.arr (r.attrs.map fun (k, _) => J.str k)),
+                 ("back", J.arr ((TreeRich.roundtrip t).map nodeRecJ))])
   | "rebase" => do
     -- parent is the list 0..n-1 (positions), so the reply names parent positions
     let n ← (← j.get "n").toNat
